@@ -111,8 +111,13 @@ def gen_random(rng, engine, name, nops, aim_pre):
             f = rng.choice(fs)
             burst = rng.choice([1, 1, 1, 2, 3, 4, 5])
             for _ in range(burst):
-                k = rng.choice([0, 0, 0, 1, 2])
-                if k == 0:
+                k = rng.choice([0, 0, 0, 1, 2, 3])
+                if k == 3:
+                    ops.append([9, f, S.fresh(), rng.randrange(3)]); S.frames += 1
+                    if coro:
+                        S.rq.append(('sf', f)); S.ref[f] += 1; S.enq += 1
+                    elif S.fst[f] == 2: S.chain[f].append((0, 0))
+                elif k == 0:
                     mode = rng.choice([1, 2]) if (coro and rng.random() < 0.4) else 0
                     ops.append([3, f, S.fresh(), mode]); S.frames += 1
                     if mode == 2:
@@ -212,7 +217,7 @@ def gen_random(rng, engine, name, nops, aim_pre):
             if S.gens[g] is None:
                 ops.append([20, g, rng.randrange(0, 5), rng.choice([0, 1])]); S.gens[g] = 1
             elif rng.random() < 0.8:
-                ops.append([21, g, rng.choice([0, 1, 2, 3, 4, 5] if coro else [0, 1, 3, 4]), rng.randrange(0, 9)])
+                ops.append([21, g, rng.choice([0, 1, 2, 3, 4, 5, 6, 7, 7, 8] if coro else [0, 1, 3, 4, 6, 7, 7, 8]), rng.randrange(0, 9)])
             else:
                 ops.append([22, g]); S.gens[g] = None
             continue
@@ -236,7 +241,7 @@ def gen_random(rng, engine, name, nops, aim_pre):
         else:
             ops.append([rng.choice([31, 99])])    # rejected in normal mode / unknown opcode
     if rng.random() < 0.1:
-        ops.insert(rng.randrange(len(ops) + 1), rng.choice([[6, 9, 0, 0, 0, 1], [3, 0], [14, 0, 5, 0], [4, 0, 7], [1, 0, 4], [21, 3, 7, 0], [21, 0, 6, 1], [6, 0, 0, 13, 0, 1], [8, 9], [20, 0, 1], [40, 0, 4, 1, 0], [40, 4, 0, 1, 0], [41, 0, 0, 1], [40, 0, 0, 1, 6], [1, 0, 6]]))
+        ops.insert(rng.randrange(len(ops) + 1), rng.choice([[6, 9, 0, 0, 0, 1], [3, 0], [14, 0, 5, 0], [4, 0, 7], [1, 0, 4], [21, 3, 7, 0], [21, 0, 6, 1], [6, 0, 0, 13, 0, 1], [8, 9], [20, 0, 1], [40, 0, 4, 1, 0], [40, 4, 0, 1, 0], [41, 0, 0, 1], [40, 0, 0, 1, 6], [1, 0, 6], [9, 0, 1, 3], [21, 0, 9, 0]]))
     return Case(engine, name, ops)
 
 
@@ -363,6 +368,16 @@ def gen(seed, tier):
         # generator with and without an argument, promise moves
         add(Case(eng, "", [[20, 0, 3, 1], [21, 0, 0, 5], [21, 0, 1, 6]] + ([[21, 0, 2, 7]] if coro else [[21, 0, 0, 7]]) + [[21, 0, 0, 8], [21, 0, 0, 9], [22, 0],
                            [20, 1, 2, 0], [21, 1, 0, 4], [21, 1, 1, 4], [21, 1, 1, 4], [22, 1]]))
+        # iterator styles: prefix ++, postfix ++, range-for, mixed with next() / gen()
+        for style in (6, 7):
+            add(Case(eng, "", [[20, 0, 5, 0]] + [[21, 0, style, 0] for _ in range(7)] + [[22, 0]]))
+        add(Case(eng, "", [[20, 1, 6, 0], [21, 1, 0, 0], [21, 1, 7, 0], [21, 1, 1, 0], [21, 1, 6, 0], [21, 1, 7, 0], [21, 1, 8, 0], [21, 1, 7, 0], [21, 1, 8, 0], [22, 1],
+                           [20, 1, 3, 0], [21, 1, 8, 0], [22, 1], [20, 1, 0, 0], [21, 1, 7, 0], [21, 1, 6, 0], [22, 1], [20, 2, 2, 1], [21, 2, 7, 1], [21, 2, 8, 1], [22, 2]]))
+        # callback_await / callback_await_alloc: closure kinds x value types x resolution kinds; ready and pending futures
+        for cap in (0, 1, 2):
+            for ty in range(6):
+                add(Case(eng, "", [[1, 0, ty], [2, 0], [9, 0, 50 + cap, cap], [9, 0, 60 + cap, (cap + 1) % 3]] + ([[31]] if coro else []) +
+                                  [[6, 0, (cap + ty) % 3, 0, 0, 7 + ty]] + ([[31]] if coro else []) + [[9, 0, 70, cap]] + ([[31]] if coro else []) + [[7, 0]]))
         # generator with an argument stepped through every access style with a variable and with a temporary
         for style in ([0, 1, 2, 3, 4, 5] if coro else [0, 1, 3, 4]):
             add(Case(eng, "", [[20, 2, 4, 1]] + [[21, 2, style, 3 + i] for i in range(6)] + [[22, 2]]))
